@@ -19,5 +19,23 @@ PROPS = {
     ),
 }
 
+PROPS["C01"] = dict(
+    pkg="c01", race=False, level="exploration", prepare="exec_projects",
+    projects_quick=[("core", ["v0", "v1", "v2", "v3"])],
+    projects_thorough=[("core", ["v0", "v1", "v2", "v3", "v4", "v5"])],
+    quick=dict(shards=8, timeout=600), thorough=dict(shards=16, timeout=3000),
+    claim="differential testing of servers generated at check time from /repo's templates (several option vectors linked into one "
+          "binary) against an independent reference GraphQL executor, over rapid-generated operations (fragments, aliases, "
+          "@skip/@include, variables) and outcome plans (value/null/error per resolver and directive invocation)",
+    note="trusts gqlparser's parser/validator for what a valid operation is, the harness reference executor, and reflection-based "
+         "universal resolvers; schemas are the harness probe schemas; sampled",
+    technique="property-based differential testing (rapid) against a reference executor; cross-configuration metamorphic equality",
+    rule="case = (probe schema, generated operation+variables, plan seed, sparse overrides of resolver/directive outcomes); "
+         "non-trivial = operation has >=1 fragment or alias AND a null/error travelled through >=1 non-null link; distinct by "
+         "(project, query, plan seed, overrides)",
+    assumptions=["gqlparser parser/validator decide validity", "reference executor (harness/refexec) implements spec section 6",
+                 "plan outcomes not representable in the Go types of some vector are discarded (counted)"],
+)
+
 # properties deliberately not claimed (reason); anything else missing from PROPS is "not built yet"
 NOT_CLAIMED = {}
